@@ -46,6 +46,10 @@ func init() {
 			return false
 		})
 		take("C09", func(id string) bool { return strings.HasPrefix(id, "C09/item-context/") })
+		// the enterprise Prometheus pipes: two goroutines subscribing to one instrumented pipeline
+		if Registry["C19"] != nil {
+			take("C19", func(id string) bool { return strings.HasPrefix(id, "C19/concurrent/") })
+		}
 		return scns
 	}
 }
